@@ -218,7 +218,10 @@ def encode_rows(rows, dbl):
 
 
 def norm(s):
-    return " ".join(s.split())
+    # visible characters of a row: the blank cell a mid-row code occupies is deliberately not always
+    # reproduced by pycaption (no space before punctuation, tests/test_scc.py::test_mid_row_codes_*), so
+    # rows are compared on their non-blank characters
+    return "".join(s.split())
 
 
 def expected_from_reference(shown):
